@@ -32,6 +32,16 @@ Theorem C03_box_inside : forall v a1 a2 a3 : pt,
 Proof. exact box_inside_ok. Qed.
 Print Assumptions C03_box_inside.
 
+(* the remark in the source ("capable of handling generic parallelepipeds"):
+   with only det <> 0 the six entries bound exactly v + s a1 + t a2 + u a3,
+   0 < s, t, u < 1 -- no orthogonality *)
+Theorem C03_box_general_inside : forall v a1 a2 a3 : pt,
+  det a1 a2 a3 <> 0 ->
+  forall es, box RS (pl v ++ pl a1 ++ pl a2 ++ pl a3) = Ok es ->
+  forall p, box_inside v a1 a2 a3 p <-> all_negative es p.
+Proof. exact box_general_inside. Qed.
+Print Assumptions C03_box_general_inside.
+
 (* ---------------- RPP ---------------- *)
 Theorem C03_rpp_facet_k : forall x0 x1 y0 y1 z0 z1 : R,
   exists es, rpp RS [x0; x1; y0; y1; z0; z1] = Ok es /\
@@ -293,6 +303,16 @@ Theorem C03_number_one : forall (key free s : Z) (sides : list Z),
       (combine (s :: sides) (key :: zseq free (List.length sides))).
 Proof. exact number_one_ids. Qed.
 Print Assumptions C03_number_one.
+
+(* over the whole dictionary of surfaces: no two facets (of the same or of
+   different bodies) share a TRIPOLI-4 id *)
+Theorem C03_number_items_distinct : forall dic : list (Z * list Z),
+  Forall (fun kv => (0 < fst kv)%Z /\ Forall (fun s => s = 1%Z \/ s = (-1)%Z) (snd kv)
+                    /\ snd kv <> []) dic ->
+  NoDup (map fst dic) ->
+  NoDup (map Z.abs (concat (map snd (number_items dic)))).
+Proof. exact number_items_distinct. Qed.
+Print Assumptions C03_number_items_distinct.
 
 (* pot_expand_surfs on the numbered facets of a body: -b is the solid, +b its
    complement, b.k the k-th facet with the outward side positive, k beyond the
